@@ -482,6 +482,11 @@ pub struct World {
     pub inflight_acc: Vec<(u32, usize)>,
     /// Per simulated thread: the k-th projection call from now panics (0 = disarmed).
     pub proj_panic: Vec<u32>,
+    /// Per node: who holds a writer reservation right now, since which entry (node, tid, entry no).
+    pub writers_inside: Vec<(usize, usize, u64)>,
+    pub writer_entries: u64,
+    /// Per node in cooldown: the reservations that were held when the cooldown started.
+    pub cooldown_witness: Vec<(usize, usize, u64)>,
     pub prog_wants_access: bool,
     pub prog_readonly_churn: bool,
     pub gen_set: Vec<bool>,
